@@ -52,6 +52,25 @@ def oracle(ck, tier, deep):
         if np.abs(a - b).max() > 1e-13 * cond * n * np.abs(X).max():
             ck.violation(dict(site="daun", clause="daun-default=onion_peeling"), dict(n=n, dr=dr, X=X.tolist()),
                          f"daun default differs from onion_peeling by {np.abs(a - b).max():.3g}")
+        # … also for a single row, given as a 1-D array or as a 1 x n image, with the same pixel size; and the three Dasch wrappers agree
+        # with dasch_transform applied to their operator (which divides by dr) whatever the number of rows
+        for row in (X[0].copy(), X[:1].copy()):
+            a1 = np.ravel(quiet(daun.daun_transform, row, dr=dr))
+            b1 = np.ravel(quiet(dasch.onion_peeling_transform, row, dr=dr, basis_dir=None))
+            if a1.shape != b1.shape or np.abs(a1 - b1).max() > 1e-13 * cond * n * np.abs(X).max() or np.abs(b1 - b[0]).max() > 1e-13 * cond * n * np.abs(X).max():
+                ck.violation(dict(site="daun", clause="daun-default=onion_peeling"), dict(n=n, dr=dr, row=np.ravel(row).tolist(), ndim=int(np.ndim(row))),
+                             f"a single row ({np.ndim(row)}-D), dr={dr}: daun default / onion_peeling / the same row inside an image disagree "
+                             f"(by {max(np.abs(a1 - b1).max(), np.abs(b1 - b[0]).max()) if a1.shape == b1.shape else 'shape'})")
+        if n >= 3:
+            for m in ("two_point", "three_point", "onion_peeling"):
+                ck.count(("S.dasch-wrapper", m, n, dr), suite="S.wrappers")
+                D = quiet(dasch.get_bs_cached, m, n, basis_dir=None)
+                for data in (X, X[0].copy(), X[:1].copy()):
+                    got = np.asarray(quiet(getattr(dasch, m + "_transform"), data, dr=dr, basis_dir=None), float)
+                    want = np.atleast_2d(data) @ np.asarray(D).T / dr
+                    if np.abs(np.atleast_2d(got) - want).max() > 1e-12 * max(1.0, np.abs(want).max()):
+                        ck.violation(dict(site=m, clause="wrapper=operator/dr"), dict(method=m, n=n, dr=dr, shape=list(np.shape(data))),
+                                     f"{m}_transform(data of shape {np.shape(data)}, dr={dr}) is not data·Dᵀ/dr (off by {np.abs(np.atleast_2d(got) - want).max():.3g})")
     # 2. zero strength = no regularisation
     for n in sizes:
         if n < 4:
